@@ -32,6 +32,20 @@ EDITS = [
  ('fast-test-merged', 'preserving', 'the nested fast-path tests written as one condition',
   "        if no_md or ignore_md:\n            if sample == 'union' and observation == 'union':\n                return self._fast_merge(others)",
   "        if (no_md or ignore_md) and sample == 'union' and observation == 'union':\n            return self._fast_merge(others)"),
+ ('md-guard-and', 'semantic', 'the guard of the receiver sample metadata look-up uses `and`',
+  "if self_sample_md is None or not self.exists(id_):", "if self_sample_md is None and not self.exists(id_):"),
+ ('md-other-from-self', 'semantic', "the other table's sample metadata entry is read from the receiver's list",
+  "other_md = other_sample_md[other_samp_idx[id_]]", "other_md = self_sample_md[other_samp_idx[id_]]"),
+ ('md-args-swapped', 'semantic', 'the sample metadata function gets (other_md, self_md)',
+  "sample_md.append(sample_metadata_f(self_md, other_md))", "sample_md.append(sample_metadata_f(other_md, self_md))"),
+ ('obs-fn-wrong', 'semantic', 'the observation metadata is merged with the sample metadata function',
+  "obs_md.append(observation_metadata_f(self_md, other_md))", "obs_md.append(sample_metadata_f(self_md, other_md))"),
+ ('ctor-md-swapped', 'semantic', 'the constructor gets the two metadata lists in the other order',
+  "sample_ids[:], obs_md, sample_md)", "sample_ids[:], sample_md, obs_md)"),
+ ('md-inits-swapped', 'preserving', 'the two independent initialisations sample_ids / sample_md swapped',
+  "        sample_ids = []\n        sample_md = []\n", "        sample_md = []\n        sample_ids = []\n"),
+ ('pinned-region', 'reject', 'the pinned pre-computed sample order uses 0 for a missing id',
+  "other_samp_order.append((nsi, other_samp_idx.get(samp_id, None)))", "other_samp_order.append((nsi, other_samp_idx.get(samp_id, 0)))"),
  ('all-to-any', 'reject', 'any(...) instead of all(...) in no_md', "no_md = all(t.metadata(axis=ax) is None", "no_md = any(t.metadata(axis=ax) is None"),
  ('other-exception', 'reject', 'the no-samples refusal raises ValueError',
   'raise TableException("No samples in resulting table!")', 'raise ValueError("No samples in resulting table!")'),
@@ -62,6 +76,8 @@ for name, group, what, old, new in EDITS:
         refused += [l for l in ev['coverage']['trusted_base'] if 'REFUSED' in l]
     except Exception:
         pass
+    # other agents' no-argument tools/regen.sh may have rewritten the file from /repo meanwhile: translate once more
+    subprocess.run(['tools/regen_merge.sh'], cwd='/verif', env=env, capture_output=True, text=True)
     diff = subprocess.run(['git', 'diff', '--quiet', '--', 'coq/Gen/MergeGen.v'], cwd='/verif').returncode
     broke = ''
     rep = {}
@@ -90,4 +106,4 @@ for name, group, what, old, new in EDITS:
                  broke or (refused[0][:200] if refused else 'all proofs check'), ' | '.join(verdict)[:300], p.returncode, fail))
     print(rows[-1], flush=True)
 shutil.copy('/repo/biom/table.py', REPO + '/biom/table.py')
-json.dump(rows, open('/tmp/c09gen/rows.json', 'w'), indent=1)
+json.dump(rows, open('/tmp/c09gen/rows%s.json' % ('-' + names[0] if names else ''), 'w'), indent=1)
